@@ -811,3 +811,34 @@ def fix_length(e, name, n):
             else:
                 x.slice = pos(x.slice, 0)
     return ast.fix_missing_locations(e)
+
+
+def catching_handler(repo, fi, node, exc_qualname):
+    """the `except` clause (of a try statement enclosing `node` in fi) that would catch an exception of class
+    `exc_qualname` raised at `node` and not let it through unchanged; None if there is none.  A handler lets it through
+    when its body ends in a bare `raise`."""
+    exc = repo.classes.get(exc_qualname)
+    cur = getattr(node, '_parent', None)
+    child = node
+    while cur is not None and cur is not fi.node:
+        if isinstance(cur, ast.Try) and any(child is s or any(child is x for x in ast.walk(s)) for s in cur.body):
+            for h in cur.handlers:
+                types = [h.type] if h.type is not None and not isinstance(h.type, ast.Tuple) else (list(h.type.elts) if h.type is not None else [None])
+                for t in types:
+                    catches = False
+                    if t is None or norm(t) in ('Exception', 'BaseException'):
+                        catches = True
+                    else:
+                        v = repo.fold(t, fi.module, cls=fi.cls)
+                        hc = v.info if isinstance(v, ClassRef) else None
+                        if hc is not None and exc is not None and (hc is exc or repo.is_subclass(exc, hc)):
+                            catches = True
+                        elif hc is None and exc is not None and norm(t).split('.')[-1] in [getattr(c, 'name', str(c)) for c in repo.mro(exc)]:
+                            catches = True
+                    if catches:
+                        through = h.body and isinstance(h.body[-1], ast.Raise) and h.body[-1].exc is None
+                        if not through:
+                            return h
+        child = cur
+        cur = getattr(cur, '_parent', None)
+    return None
